@@ -200,6 +200,15 @@ def de_post(I, outcome, ctx):
     f, h = views(I, q)
     I.oblige('ensures.whole_snapshot_dispatched', h.hi == h.lo, detail='the pass ends only when every entry of the snapshot was popped')
     I.oblige('ensures.batch_zero', I.fz(q, '_flush_batch') == 0)
+    # "everything queued ... is dispatched": a pass that starts with an exhausted snapshot takes over whatever waits in the fifo
+    pre = ctx['pre']
+    batch0 = z3.Select(pre['_flush_batch'][0], q.t)
+    f0lo, f0hi = [z3.Select(a, q.t) for a in pre['_queue'][-2:]] if False else (None, None)
+    fq0 = List(ENTRY).wrap([z3.Select(a, q.t) for a in pre['_queue']])
+    if not I.st.ghost.get('REFILL_ENTERED'):
+        I.oblige('idle_pass_takes_over_the_queued_events', z3.Not(z3.And(batch0 == 0, fq0.hi > fq0.lo)),
+                 detail='the previous snapshot was exhausted and events are waiting in the fifo, yet the pass did not take them over: they '
+                        'would never be dispatched')
 
 
 def de_calls():
@@ -213,6 +222,7 @@ def refill_entry_hook(I):
     I.oblige('refill_only_when_snapshot_exhausted', h.hi == h.lo,
              detail='events fired during a pass stay in the fifo until every entry of the snapshot has been popped')
     I.st.write_field(q.t, 'G_lp_valid', VBool(False))
+    I.st.ghost['REFILL_ENTERED'] = True
 
 
 SPECS.append(FucSpec(
